@@ -91,6 +91,17 @@ def drive (s : C11.DState) (fs : List String) : C11.DState × String :=
            | .ret none => "None"
            | .raise e => "raise:" ++ e.name)
         | none => "bad-op")
+  | ["isup", toks, ints, x] =>
+    (s, match decList toks, decList ints, dec x with
+        | some toks, some ints, some x =>
+          -- `ints`: for every token its `int(value)` ("~" = ValueError / not applicable), by position
+          let tbl : List (Str × Option Int) := (toks.zip ints).map fun (t, i) =>
+            ((match split1 '=' t with | some (_, v) => v | none => []), (String.ofList i).toInt?)
+          let intOf : Str → Option Int := fun v => (tbl.lookup v).join
+          (match ircIsChannel (do005 intOf [] toks) x with
+           | .ok b => if b then "true" else "false"
+           | .error e => "raise:" ++ e)
+        | _, _, _ => "bad-op")
   | "d" :: rest => C11.driveWith (fun s => envOf (liveBehaviour (C11.timeOkOf s))) s rest
   | _ => (s, "bad-op")
 
